@@ -86,6 +86,8 @@ class C02(common.ModelProperty):
         "removal-override-admitted-the-vertex-again",
         "subclass-with-late-state-built-with-universes",
         "universe-with-thousands-of-members",
+        "most-members-of-a-large-universe-leave",
+        "caching-flag-flipped-between-structural-calls",
     ]
 
     def make_config(self, rng):
@@ -138,13 +140,41 @@ class C02(common.ModelProperty):
             cfg["max_vertices"] = cfg["crowd"] + cfg["nv"] + 4
             cfg["weights"]["v_add_uni"] = max(3, cfg["weights"].get("v_add_uni", 0))
             cfg["weights"]["mk_vertex_unis"] = max(2, cfg["weights"].get("mk_vertex_unis", 0))
+        elif rng.random() < 0.012:
+            # a universe with dozens to a few hundred members most of which
+            # then leave (code paths that depend on how many have left)
+            cfg["crowd"] = rng.choice([40, 70, 130, 260])
+            cfg["exodus"] = True
+            cfg["steps"] = rng.randint(5, 14)
+            cfg["restarts"] = False
+            cfg.pop("deep_bounds", None)
+            cfg["max_vertices"] = cfg["crowd"] + cfg["nv"] + 4
+            cfg["weights"]["uni_remove"] = max(4, cfg["weights"].get("uni_remove", 0))
+            cfg["weights"]["v_remove_uni"] = max(2, cfg["weights"].get("v_remove_uni", 0))
+        if cfg.get("crowd") and "exodus" not in cfg:
+            cfg["exodus"] = rng.random() < 0.5
+        # the application flips Vertex.NEIGHBOR_CACHING between two calls
+        # (membership has nothing to do with the flag: it must hold either way)
+        cfg["p_flag"] = rng.choice([0.0, 0.0, 0.05, 0.15])
         return cfg
 
     def next_op(self, rng, cfg, st):
         if cfg.get("crowd") and not getattr(st, "crowd_made", False) and st.pending_setup == []:
             st.crowd_made = True
-            st.stats["probe:universe-with-thousands-of-members"] += 1
-            return {"op": "mk_crowd", "new": st.namer.new("u"), "cls": "Universe", "n": cfg["crowd"], "tag": 0}
+            if cfg["crowd"] >= 1000:
+                st.stats["probe:universe-with-thousands-of-members"] += 1
+            st.crowd_label = st.namer.new("u")
+            return {"op": "mk_crowd", "new": st.crowd_label, "cls": "Universe", "n": cfg["crowd"], "tag": 0}
+        if cfg.get("exodus") and getattr(st, "crowd_made", False) and not getattr(st, "exodus_made", False) and rng.random() < 0.5:
+            st.exodus_made = True
+            st.stats["probe:most-members-of-a-large-universe-leave"] += 1
+            return {
+                "op": "exodus", "u": st.crowd_label,
+                "pattern": rng.choice(["even", "odd", "front", "back", "thirds"]),
+                "pct": rng.choice([51, 60, 80, 95]),
+                "rev": rng.random() < 0.3,
+                "side": rng.choice(["u", "u", "v"]),
+            }
         return super().next_op(rng, cfg, st)
 
     refusal_name = "construction-refused-before-anything-was-recorded"
